@@ -334,6 +334,15 @@ func deepRun(kind string, n, limit int) string {
 	vm.Set("goTree", func(x deepTree) int { return len(x) })
 	vm.Set("goMap", func(x deepMap) int { return len(x) })
 	parts := strings.Split(kind, ":")
+	if tok, ok := deepRunExtra(vm, parts, n); ok { // big:, smap:, nilsrc: (deep2.go)
+		if tok != "" {
+			return tok
+		}
+		if v, err := vm.Run("1+1"); err != nil || v.String() != "2" {
+			return "unusable-after"
+		}
+		return "returns"
+	}
 	switch {
 	case parts[0] == "js" && len(parts) == 3:
 		build, opName := parts[1], parts[2]
@@ -454,7 +463,7 @@ func implDeep(f []string) string {
 	}
 	var n int
 	fmt.Sscan(f[2], &n)
-	if n >= 1000000 {
+	if n >= 1000000 && !strings.HasPrefix(f[1], "big:") {
 		deepBigSem <- struct{}{}
 		defer func() { <-deepBigSem }()
 	}
@@ -496,6 +505,7 @@ var deepCoreShapes = map[string]bool{"paren": true, "bracket": true, "block": tr
 	"iife": true, "cond-nest": true, "plus": true, "dot": true, "call": true, "if-else": true, "try-nest": true, "label": true, "new": true}
 
 func genDeep(c *h.Ctx) {
+	genDeepExtra(c)
 	// the parser's nesting limit is 10000 and a shape costs 1-3 levels per repetition: 3300/4900/9900 sit
 	// just below it (the deepest trees every later stage has to survive), the rest far above
 	srcRungs := []int{1000, 4900, 9900, 100000, 1000000}
@@ -505,9 +515,9 @@ func genDeep(c *h.Ctx) {
 	bindRungs := []int{1000, 10000}
 	limits := []int{0, 100}
 	if c.Thorough() {
-		srcRungs = []int{10, 100, 1000, 3300, 4900, 5000, 9900, 9990, 10010, 20000, 100000, 1000000, 3000000}
-		otherRungs = []int{4900, 9900, 10010, 100000, 1000000}
-		jsRungs = []int{100, 1000, 9000, 11000, 100000, 1000000}
+		srcRungs = []int{100, 3300, 4900, 9900, 10010, 100000, 3000000}
+		otherRungs = []int{9900, 10010, 100000}
+		jsRungs = []int{1000, 9000, 11000, 1000000}
 		bindRungs = []int{100, 1000, 10000, 30000}
 		limits = []int{0, 100, 1000, 10}
 	}
@@ -529,6 +539,8 @@ func genDeep(c *h.Ctx) {
 						continue // source text must return, limit or not: the limit is varied with Run and the script-level entries
 					case L != 0 && (L != 100 || !c.Thorough()) && n != 9900 && n != 100000:
 						continue // the other limits at two rungs only (quick: also 100)
+					case L != 0 && L != 100 && e != "run":
+						continue
 					}
 					c.Add(fmt.Sprintf("deep %s:%s %d %d", e, sh.name, n, L), "deep:source:"+e)
 				}
@@ -552,6 +564,9 @@ func genDeep(c *h.Ctx) {
 				for _, L := range limits {
 					if L == 0 && op.needLimit {
 						continue
+					}
+					if L != 0 && L != 100 && n != 11000 && n != 0 {
+						continue // the other limits at one rung (and on the cyclic values)
 					}
 					c.Add(fmt.Sprintf("deep js:%s:%s %d %d", b, op.name, n, L), "deep:structure:"+b)
 				}
